@@ -8,7 +8,7 @@ CHECKS = {
     'C01': {
         'text': 'Verus proves, on the real text: encode_frame equals the RFC 23 frame image (flags, 255/256 size boundary, 8 octet big-endian size, body) for every usize length and both MORE values; Encoder::encode writes exactly rfc_msg(frames) for every message of >= 1 frames; '
                 'the decoder equals an RFC-written resumable decoder specification, and that specification parses rfc_msg(frames) back to exactly [frames] (lemma); the READY serialiser emits one command frame with an exact size field carrying every property once, and the READY parser builds exactly the map the RFC grammar reads; '
-                'the greeting serialiser is proved octet for octet by a loop-free Kani harness over its full domain. '
+                'the greeting serialiser is proved octet for octet by a loop-free Kani harness over its full domain; every backend\'s socket_type() and the constructor that fixes it are proved to name the socket\'s own type (what READY carries); every ZmqMessage operation is proved against the frame-sequence view. '
                 'Proof is the right level because the property quantifies over all messages and lengths, which no grid of tests covers.',
         'design_ref': 'DESIGN.md 4 (C01), 2, 3',
         'note': 'Assumed: specs of the bytes crate (cross-checked by bounded Kani bytes_spec_* harnesses in the thorough tier); an assumed model of std enumerate over a deque iterator (stand-in Iter/Enumerate); A-REGION-2 (the b"READY" slice-pattern match); String-by-octets and hash-key axioms. 64-bit target.',
@@ -16,7 +16,7 @@ CHECKS = {
     },
     'C02': {
         'text': 'Verus proves that each call of the real decode() performs exactly one step of the RFC stream decoder on (abstract state, pending bytes): Ok(None) loses no information, an item is returned exactly when the '
-                'specification yields one, state and leftover bytes agree. Segmentation independence for every partition then follows by induction over the specification (lemmas in the same unit).',
+                'specification yields one, state and leftover bytes agree. Segmentation independence for every partition then follows by induction over the specification (lemmas in the same unit). The hand-over is under contract too: each handshake step reads exactly one item, FramedIo::into_parts is the identity, and the read half that gets registered is the one the handshake used.',
         'design_ref': 'DESIGN.md 4 (C02)',
         'note': 'Assumed: asynchronous-codec FramedRead appends reads to one buffer and calls decode repeatedly without dropping bytes; the hand-over of the framed reader is a move (Rust ownership).',
         'technique': 'Verus: resumability contract on decode (loop invariant against a recursive spec function) + inductive lemmas',
@@ -24,7 +24,7 @@ CHECKS = {
     'C04': {
         'text': 'Verus proves, on the real text: compatible() equals the RFC socket-compatibility relation for every pair with no precondition (total, symmetric by lemma); the identity rule (empty -> generated, >255 -> error, else verbatim); '
                 'negotiate_version accepts exactly versions >= 3.0; ready_exchange returns Ok exactly when the single item read is a READY whose Socket-Type names a compatible type and whose Identity is <= 255 octets, and yields the announced identity; '
-                'util::peer_connected calls the backend only under the precondition that both exchanges succeeded on that very connection. Name parsers (byte-string patterns) are discharged by Kani.',
+                'util::peer_connected calls the backend only under the precondition that both exchanges succeeded on that very connection; the backends register the peer exactly once under that identity; each socket announces its own type. Name parsers (byte-string patterns) are discharged by Kani.',
         'design_ref': 'DESIGN.md 4 (C04)',
         'note': 'Assumed: framed read/write stand-ins with ghost logs; String hash-key axioms; generated identities are one abstract value (uniqueness not claimed). Not covered: that registration happens on the Ok path (effect behind Arc<dyn>), connection closing, monitor reporting. socktype_parse is bounded (length <= 8).',
         'technique': 'Verus contracts on extracted handshake functions (async skeletons) + Kani for name parsers and the 12x12 table',
@@ -37,7 +37,7 @@ CHECKS = {
         'technique': 'Verus contracts on async skeletons (await dropped) over Seq views of ZmqMessage and ghost wire logs',
     },
     'C08': {
-        'text': 'Verus proves the REQ/REP state machines per call: out-of-turn REQ send / REP send return the message intact and change nothing; REQ recv without a request changes nothing; a successful REQ send marks exactly the peer written to; REP send writes to exactly the entry of the stored requester and to no other (table equal elsewhere).',
+        'text': 'Verus proves the REQ/REP state machines per call: out-of-turn REQ send / REP send return the message intact and change nothing; REQ recv without a request changes nothing; a successful REQ send marks exactly the peer written to; REP send writes to exactly the entry of the stored requester and to no other (table equal elsewhere); the marker / envelope survive an abandoned recv (await-point invariants).',
         'design_ref': 'DESIGN.md 4 (C08)',
         'note': 'Sequential scope: per-call contracts over an owned peer-table model; interleavings of concurrent clients are not enumerated. The monitor channel is a stand-in.',
         'technique': 'Verus state-machine contracts on extracted REQ/REP methods with a peer-table model (prophecy-style &mut entry)',
@@ -55,13 +55,13 @@ CHECKS = {
         'technique': 'Verus loop invariant against a recursive first_live spec over the rotation queue',
     },
     'C14': {
-        'text': 'Cancellation safety is put back as explicit obligations after dropping .await: at every former suspension point of REQ, REP, ROUTER, DEALER, PULL, SUB and XPUB recv Verus proves the protocol-state fields equal their entry values and every queue item consumed so far has been completely dealt with (skipped by design, or failed and forgotten), so a dropped future owns nothing.',
+        'text': 'Cancellation safety is put back as explicit obligations after dropping .await: at every former suspension point of REQ, REP, ROUTER, DEALER, PULL, SUB and XPUB recv Verus proves the protocol-state fields equal their entry values and every queue item consumed so far has been completely dealt with (skipped by design, or failed and forgotten), so a dropped future owns nothing; a send refused while a recv is still owed changes nothing.',
         'design_ref': 'DESIGN.md 4 (C14)',
         'note': 'Cancel-safety of FramedRead::next / scc get_async is assumed. FairQueue::poll_next itself is under contract in sequential scope (on Pending the current waker is registered; streams are put back unless ended; items carry the key of their stream); wake-ups from other threads are not modelled. proxy() itself (select! expansion) not covered.',
         'technique': 'Verus await-point invariants spliced before each former .await of the extracted recv functions',
     },
     'C11': {
-        'text': 'Verus proves, on the real text of PubSocket::send and XPubSocket::send: for every subscriber still registered afterwards, its subscription list is untouched and its connection\'s writer was handed the message exactly once if some subscription is a byte-prefix of the first frame (the empty subscription matches everything) and not at all otherwise - also when several subscriptions match. '
+        'text': 'Verus proves, on the real text of PubSocket::send and XPubSocket::send: for every subscriber still registered afterwards, its subscription list is untouched and its connection\'s writer was handed the message exactly once if some subscription is a byte-prefix of the first frame (the empty subscription matches everything) and not at all otherwise - also when several subscriptions match; send reports an error only if a writer reported one that is neither an I/O error nor a full buffer of a single connection. '
                 'The bookkeeping is proved on message_received of both sockets: a one-frame 0x01 message appends its topic, a one-frame 0x00 message removes exactly the first equal topic (nothing if there is none), anything else changes nothing, and only the sender\'s entry can change. XPubSocket::recv is proved to return the first message item the queue yields verbatim and to apply exactly that item to the sender\'s entry.',
         'design_ref': 'DESIGN.md 10.2f',
         'note': 'Sequential scope. The scc traversal is an assumed cursor model (visits every key once; entry changes are table changes); try_send through Pin is an assumed expression ("handed to the writer", drops at the high-water mark are C12); position(closure) in message_received is an assumed expression. Not covered: per-connection ordering of subscription processing against concurrent sends.',
@@ -69,7 +69,7 @@ CHECKS = {
     },
     'C13': {
         'text': 'Verus proves, on the real text of src/sub.rs, the history invariant "every registered peer has been told exactly the socket\'s current topic set" (RFC 29 counting of the SUBSCRIBE / CANCEL messages on its wire log: 1 for a topic in the set, 0 for any other, nothing left buffered): '
-                'peer_connected sends the whole current set to the new connection before registering it and preserves the invariant; subscribe / unsubscribe change the set, announce a change of the set to EVERY registered peer whatever happens on the other connections (each peer\'s connection is attempted exactly once), and preserve the invariant whenever they report success. '
+                'peer_connected sends the whole current set to the new connection before registering it and preserves the invariant; subscribe / unsubscribe change the set, announce a change of the set to EVERY registered peer whatever happens on the other connections (each peer\'s connection is attempted exactly once), and preserve the invariant whenever they report success; a new socket starts with the invariant, and a failed peer is forgotten - that peer only. '
                 'Two genuine defects were found this way and repaired (fix: commits, known_findings.json): process_subs stopped at the first failing peer; subscribe / unsubscribe announced calls that did not change the set, so that counting peers and late joiners disagreed.',
         'design_ref': 'DESIGN.md 10.2g, 5 (F7, F8)',
         'note': 'Sequential scope: a peer connecting concurrently with a subscribe call is not decided. Assumed: scc cursor model, FramedWrite::send stand-in, String-key / UTF-8 axioms for the HashSet<String> (insert / remove verified against the vstd specs), the snapshot iteration (iter().map(closure).collect()) as an assumed expression, `.unwrap()` on the snapshot send as return-only-if-Ok (the panic of the accept task is not claimed absent).',
